@@ -280,7 +280,7 @@ fn fmt_oracle(c: &FmtCase, obs: &mut Obs) -> Check {
 }
 
 pub fn run(ctx: &Ctx) {
-    ctx.set_rule("E2: (a) every filter of stdlib / stdlib+jekyll+shopify+extra (names taken from the parser's reflection) x every input of a 51-value pool (nil, booleans, integers to the i64 limits, floats incl. ties and infinities, empty / blank / non-ASCII / combining strings, date-like and path-like strings, arrays of mixed types up to 40 elements, arrays of objects, objects, empty/blank markers) x every argument tuple of arity <= 1 over the same pool and arity 2 over a 12-value sub-pool (thorough: the full pool), deliberately type-confused; (b) for / tablerow / cycle / include / render / case / increment / capture / ifchanged / interrupts with every attribute position filled from {0, 1, 2, -1, 10^4, i64::MAX, i64::MIN, '3', 'x', 1.5, nil, true, [], {}} over 8 collection forms; (d) every format string of <= 3 (thorough 4) symbols over {% - _ 0 ^ # : 3 12 E O Y z L e-acute emoji} for date and date_in_tz; E1: (c) random well-formed templates using every tag, block and filter on random nested data, rendered with render and render_to. Oracle: no panic; Ok or Err; emitted bytes valid UTF-8; render == render_to. Non-trivial = every case (each exercises a filter or tag on a non-default argument); distinct by (construct, input kind, argument kinds) for the cubes and by source+data for random templates.");
+    ctx.set_rule("E2: (a) every filter of stdlib / stdlib+jekyll+shopify+extra (names taken from the parser's reflection) x every input of a 51-value pool (nil, booleans, integers to the i64 limits, floats incl. ties and infinities, empty / blank / non-ASCII / combining strings, date-like and path-like strings, arrays of mixed types up to 40 elements, arrays of objects, objects, empty/blank markers) x every argument tuple of arity <= 1 over the same pool and arity 2 over a 12-value sub-pool (thorough, and always for the filters only the extended configuration adds: the full pool), deliberately type-confused; (b) for / tablerow / cycle / include / render / case / increment / capture / ifchanged / interrupts with every attribute position filled from {0, 1, 2, -1, 10^4, i64::MAX, i64::MIN, '3', 'x', 1.5, nil, true, [], {}} over 8 collection forms; (d) every format string of <= 3 (thorough 4) symbols over {% - _ 0 ^ # : 3 12 E O Y z L e-acute emoji} for date and date_in_tz; E1: (c) random well-formed templates using every tag, block and filter on random nested data, rendered with render and render_to. Oracle: no panic; Ok or Err; emitted bytes valid UTF-8; render == render_to. Non-trivial = every case (each exercises a filter or tag on a non-default argument); distinct by (construct, input kind, argument kinds) for the cubes and by source+data for random templates.");
     ctx.assume("ranges and widths above 10^4 are excluded (unbounded work by design, as in the statement); explosive generated programs are discarded by a cost estimate");
     for conf in [Conf::Stdlib, Conf::Full] {
         let names = lq::filter_names(conf);
@@ -293,7 +293,8 @@ pub fn run(ctx: &Ctx) {
         };
         ctx.note(&format!("filters_{conf:?}"), serde_json::json!(names));
         let pool = arg_pool();
-        let sub = if ctx.quick() { sub_pool() } else { arg_pool() };
+        // the extended configuration adds only ~10 filters: its arity-2 cube always uses the full pool
+        let sub = if ctx.quick() && conf == Conf::Stdlib { sub_pool() } else { arg_pool() };
         let (nf, np, ns) = (names.len() as u64, pool.len() as u64, sub.len() as u64);
         let tag = format!("{conf:?}").to_lowercase();
         {
